@@ -73,10 +73,13 @@ Loaded ==   \* everything set
    coms |-> [some |-> TRUE, items |-> <<[k |-> "out", cb |-> FALSE], [k |-> "in", cb |-> TRUE]>>],
    proof |-> "sig", snd |-> TRUE, rk |-> "2of2"]
 Bases == {Blank, Typical, Loaded}
+\* more participant entries than the one-byte count of the binary slate can carry
+BigSigs(n) == [i \in 1..n |-> [part |-> FALSE]]
+Oversize == {[b EXCEPT !.sigs = BigSigs(n)] : b \in {Blank, Typical}, n \in {256, 257}}
 
 \* (operators with a parameter: TLC evaluates every parameterless constant definition eagerly, once per worker)
 SlateCases(m) ==
-  CASE m = "dev2"   -> UNION {Dev2(b, SlateFD) : b \in Bases}
+  CASE m = "dev2"   -> UNION ({Dev2(b, SlateFD) : b \in Bases} \cup {Oversize})
     [] m = "sample" -> RandomSubset(NSample, SlateProduct)
     [] m = "full"   -> FullSet
     [] OTHER -> {}
@@ -137,14 +140,16 @@ ASSUME TLCSet(1, {})
 Once(class, rec) == IF class \in TLCGet(1) THEN TRUE
                     ELSE TLCSet(1, TLCGet(1) \cup {class}) /\ PrintT(<<"CEX", ToJson(rec)>>)
 \* the differences a slatepack encoding inherits from the binary slate it carries (attributed to "bin")
+ResDiff(r, s, env, enc) ==
+  IF r.res = "ok" THEN DiffSet(s, r.slate) \cup (IF IsPack(enc) /\ r.sender # env.snd THEN {"sender"} ELSE {})
+  ELSE {"res:" \o r.res}
 Inherited(enc, s, env, diff) ==
-  IF UsesBin(enc) /\ enc # "bin" THEN diff \cap DiffSet(s, DecEnc("bin", s, env).slate) ELSE {}
+  IF UsesBin(enc) /\ enc # "bin" THEN diff \cap ResDiff(DecEnc("bin", s, env), s, env, "bin") ELSE {}
 
 CheckRoundTrip(x, enc, r) ==
   LET s == SlateOfCase(x.a)  env == EnvOf(x.a) IN
   IF RoundTripRes(r, s, env, enc) THEN TRUE
-  ELSE LET diff == IF r.res = "ok" THEN DiffSet(s, r.slate) \cup (IF IsPack(enc) /\ r.sender # env.snd THEN {"sender"} ELSE {})
-                   ELSE {"res:" \o r.res}
+  ELSE LET diff == ResDiff(r, s, env, enc)
            inh  == Inherited(enc, s, env, diff) IN
        Once(<<"RoundTrip", IF diff = inh THEN "bin" ELSE enc, diff>>,
             [p |-> "RoundTrip", e |-> enc, inh |-> inh, diff |-> diff, case |-> x])
@@ -152,10 +157,10 @@ CheckRoundTrip(x, enc, r) ==
 \* CrossEqual: every decoding equals the decoding of the V4 JSON form (equality is transitive, so this is
 \* the pairwise statement of CodecRoundTrip!CrossEqual); evaluated on the decoded state of each other encoding
 CheckCross(x, enc, r) ==
-  LET s == SlateOfCase(x.a)  env == EnvOf(x.a)  j == DecEnc("json", s, env) IN
+  LET s == SlateOfCase(x.a)  env == EnvOf(x.a)  j == DecEnc("json", s, env)  b == DecEnc("bin", s, env) IN
   IF (r.res = "ok" /\ j.res = "ok") => SlateEq(r.slate, j.slate) THEN TRUE
   ELSE LET diff == DiffSet(j.slate, r.slate)
-           inh  == IF enc = "bin" THEN {} ELSE diff \cap DiffSet(j.slate, DecEnc("bin", s, env).slate) IN
+           inh  == IF enc = "bin" \/ b.res # "ok" THEN {} ELSE diff \cap DiffSet(j.slate, b.slate) IN
        Once(<<"CrossEqual", IF diff = inh THEN "bin" ELSE enc, diff>>,
             [p |-> "CrossEqual", e |-> "json~" \o enc, inh |-> inh, diff |-> diff, case |-> x])
 
@@ -181,4 +186,5 @@ InvGen == (phase = "case" /\ Mode # "full") => PrintT(<<"CASE", ToJson(c)>>)
 \* vacuity witnesses: these must be VIOLATED (reachable) in the dev2 config
 WitnessNRD      == ~(c.kind = "slate" /\ c.a.feat = 3 /\ c.a.fargs # NoArg)
 WitnessEncrypted == ~(phase = "decoded" /\ c.kind = "slate" /\ IsEnc(e) /\ d.res = "ok" /\ d.sender)
+WitnessOversize == ~(c.kind = "slate" /\ Len(c.a.sigs) > 255)
 =============================================================================
